@@ -67,6 +67,7 @@ func evalCase(h *host, c caseT) (fails []failure, oc string) {
 	if h.out != nil {
 		ret, _ = resultByLabel(h.out, c.Res)
 	}
+	curMulti = ret.Multi
 	form := "bare"
 	if h.out == nil && c.Res == "stmt" {
 		form = "stmt"
@@ -126,6 +127,10 @@ func evalCase(h *host, c caseT) (fails []failure, oc string) {
 		// every argument was representable. A result that has no script representation may be refused.
 		if h.out != nil && h.out.Fam == "int" && !h.out.Signed && ret.V.Uint() > math.MaxInt64 {
 			return fails, oc + "/result-unrepresentable"
+		}
+		if h.out != nil && h.out.Fam == "x" {
+			// a result kind outside the supported set may be refused with a catchable error
+			return fails, oc + "/result-unsupported-refused"
 		}
 		fails = append(fails, failure{Mode: "refused", Pos: -1, Detail: "every argument is representable in its Go parameter kind, yet the call was refused\n" + describe()})
 		return fails, oc
@@ -436,6 +441,9 @@ func findingsFor(c caseT, fails []failure) []finding {
 						same = true
 					}
 				}
+			} else if f.Pos >= 0 && f.Pos < len(c.In) {
+				// omitted arguments: compare with the positional one-parameter call of the blamed value
+				same, _ = probe(singleCase(c.Path, "param", kindByName(c.In[f.Pos]), c.Args[f.Pos], ""), "param", f.Mode)
 			}
 			if !same {
 				if f.Mode == "panic" {
@@ -470,7 +478,11 @@ func findingsFor(c caseT, fails []failure) []finding {
 			case "refused":
 				add("convert "+c.Args[0].T+"->"+k.group()+": representable value refused", "param-identity", f, c)
 			case "no-error":
-				add("convert "+c.Args[0].T+"->"+k.group()+": unrepresentable value accepted", "unconvertible-error", f, c)
+				if c.Args[0].T != k.Fam {
+					add("convert "+k.Fam+"<-"+c.Args[0].T+": value without an image in the kind accepted", "unconvertible-error", f, c)
+				} else {
+					add("convert "+c.Args[0].T+"->"+rangeGroup(k)+": unrepresentable value accepted", "unconvertible-error", f, c)
+				}
 			default:
 				add("convert "+c.Args[0].T+"->"+k.Name+" "+c.Args[0].C+": wrong value", "param-identity", f, c)
 			}
@@ -498,7 +510,11 @@ func findingsFor(c caseT, fails []failure) []finding {
 			case "refused":
 				add(fmt.Sprintf("%s %s %s: representable value refused", c.Path, cu.role, k.group()), "param-identity", f, sc)
 			case "no-error":
-				add(fmt.Sprintf("%s param %s: unrepresentable value accepted", c.Path, k.group()), "unconvertible-error", f, sc)
+				if v.T != k.Fam {
+					add(fmt.Sprintf("%s param %s<-%s: value without an image in the kind accepted", c.Path, k.Fam, v.T), "unconvertible-error", f, sc)
+				} else {
+					add(fmt.Sprintf("%s param %s: unrepresentable value accepted", c.Path, rangeGroup(k)), "unconvertible-error", f, sc)
+				}
 			case "wrong-value":
 				add(fmt.Sprintf("%s param %s %s: wrong value", c.Path, k.Name, v.C), "param-identity", f, sc)
 			case "result-wrong":
@@ -534,6 +550,15 @@ func coarsePanic(p string) string {
 		return strings.Replace(p, m[0], "reflect:-Call-using-a-different-type-of-the-same-Kind(named/basic)", 1)
 	}
 	return p
+}
+
+// rangeGroup names the kind in "unrepresentable value accepted" keys: the integer kinds share one
+// range check (one key "sized"), float32 has its own.
+func rangeGroup(k *kindT) string {
+	if k.Fam == "float" && !k.Core && !k.Named {
+		return k.Name
+	}
+	return k.group()
 }
 
 func hasNull(a []sval) bool {
@@ -604,8 +629,9 @@ func tuples(in []*kindT, out *kindT, fn func(args []sval, res string)) {
 		for t := 0; t < maxLen; t++ {
 			a := cp()
 			for p, k := range in {
-				np := nativePool(k)
-				a[p] = np[(t+p)%len(np)]
+				if np := nativePool(k); len(np) > 0 {
+					a[p] = np[(t+p)%len(np)]
+				}
 			}
 			r := nres
 			if out != nil {
@@ -677,6 +703,7 @@ func worker(w *pool.W, raw json.RawMessage) {
 			ok = kindByName(out)
 		}
 		first := true
+		xsig := isX(append([]string{out}, in...)...)
 		if style != "" {
 			if _, _, ok := h.callExpr(style); !ok {
 				sigs--
@@ -692,6 +719,9 @@ func worker(w *pool.W, raw json.RawMessage) {
 			c := caseT{Path: path, In: in, Out: out, Args: args, Res: res, Style: style}
 			fs, oc := evalCase(h, c)
 			calls++
+			if xsig {
+				oc = "unsupported-kind:" + oc
+			}
 			outcomes[oc]++
 			if first && sigs%97 == 1 && len(fs) == 0 {
 				first = false
@@ -731,6 +761,16 @@ func worker(w *pool.W, raw json.RawMessage) {
 					}
 				}
 			}
+		}
+	case "x":
+		// kinds outside the supported set, both paths
+		for i, sg := range xSignatures() {
+			if i%sh.NKinds != sh.Arity {
+				continue
+			}
+			in, out := sg[:len(sg)-1], sg[len(sg)-1]
+			runSig("func", in, out)
+			runSig("method", in, out)
 		}
 	case "method-styles":
 		for _, st := range callStyles {
@@ -982,6 +1022,18 @@ func main() {
 		}
 	}
 	add(shardArg{Path: "method-styles"})
+	// parameter / result kinds outside the supported set (pointer, interface, slice, map, struct, func,
+	// chan, complex, several results, variadic): NKinds = number of slices, Arity = this slice
+	const xSlices = 8
+	for i := 0; i < xSlices; i++ {
+		add(shardArg{Path: "x", Arity: i, NKinds: xSlices})
+	}
+	var xn []string
+	for i := range xkinds {
+		xn = append(xn, xkinds[i].Name+" "+xkinds[i].T.String())
+	}
+	c.Set("unsupported_kinds", xn)
+	c.Set("unsupported_kind_signatures", len(xSignatures()))
 	c.Set("call_styles", callStyles)
 	for _, d := range sequences() {
 		shards = append(shards, pool.Shard{Kind: "seq", Arg: d})
